@@ -57,6 +57,8 @@ try:
     from pipefunc.map import load_xarray_dataset
     ds = load_xarray_dataset(run_folder=folder)
     info["xr"] = {{str(k): [list(map(str, ds[k].dims)), progs.to_nested(ds[k].values)] for k in ds.data_vars}}
+    info["xr"]["__coords__"] = {{str(k): [str(x) for x in ds.coords[k].values.tolist()] for k in ds.coords
+                                if ds.coords[k].ndim == 1}}
 except Exception as e:
     info["xr"] = {{"__error__": type(e).__name__ + ": " + str(e)[:200]}}
 print("RESULT" + json.dumps({{"outputs": res, "info": info}}))
@@ -173,6 +175,14 @@ def _check(case):
         if isinstance(xr, dict) and "__error__" in xr:
             bad.append(f"fresh-process-load_xarray_dataset: {xr['__error__']}")
         else:
+            # an input shown by the dataset (1-D mapped root inputs are coordinates) carries the values the run was given
+            for name, cv in xr.pop("__coords__", {}).items():
+                desc = prog["inputs"].get(name[len(pre):] if pre and name.startswith(pre) else name)
+                if desc is None or desc.get("shape") is None or len(desc["shape"]) != 1:
+                    continue
+                given = desc["default"] if desc.get("omit") else progs.nested_input(name[len(pre):] if pre else name, desc)
+                if cv != [str(v) for v in given]:
+                    bad.append(f"xarray-input:{name}: dataset shows {cv}, the run was given {given}")
             for f in prog["funcs"]:
                 if f.get("spec") and f["spec"]["inputs"]:
                     for o, axes in f["spec"]["outputs"]:
